@@ -945,6 +945,6 @@ func main() {
 		Run:         run,
 		MinEvals:    3000,
 		MinDistinct: 150,
-		Require:     []string{"directed_authorization_scenarios", "accepted_blocks_tampered", "tampers_rejected", "positive_controls_resigned_accepted", "key_rotating_revisions_seen", "v2_multisig_spends_with_one_signature_repeated", "partial_signature_field_kind_relabellings_tried"},
+		Require:     []string{"directed_authorization_scenarios", "accepted_blocks_tampered", "tampers_rejected", "positive_controls_resigned_accepted", "key_rotating_revisions_seen", "v2_multisig_spends_with_one_signature_repeated", "partial_signature_field_kind_relabellings_tried", "partial_signature_output_index_cases"},
 	})
 }
